@@ -274,4 +274,6 @@ def unit_direct_solve(nsub, nonhermitian, timeout_ms=20000):
 def term_eq_py(a, b):
     if isinstance(a, T) and isinstance(b, T):
         return a.head == b.head and len(a.args) == len(b.args) and all(term_eq_py(x, y) for x, y in zip(a.args, b.args))
+    if isinstance(a, (int, float, complex, str)) and isinstance(b, (int, float, complex, str)):
+        return type(a) is type(b) and a == b
     return a is b
